@@ -78,7 +78,9 @@ same `Pre.forge`. -/
 def parsePre (s : String) : Option Pre :=
   if s.startsWith "fg" && forgedLenOk (String.ofList (s.toList.drop 2)) then some (.forge true)
   else if s.startsWith "fn" && forgedLenOk (String.ofList (s.toList.drop 2)) then some (.forge false)
-  else if s == "sl" then some .dropServer
+  -- "sn": the server's cache is lost and replaced by an empty foreign implementation that reports a miss as
+  -- (nil, true); a server must treat that answer as a miss (F65), so for the model it is the same action
+  else if s == "sl" || s == "sn" then some .dropServer
   else if s.startsWith "st" then (String.ofList (s.toList.drop 2)).toNat?.map Pre.stale
   else if s.startsWith "j" then (String.ofList (s.toList.drop 1)).toNat?.map Pre.junk
   else none
